@@ -1427,7 +1427,7 @@ def main(run):
     nw = 8 if run.tier == "quick" else 16
     per_var = run.n(100, 2500)
     common.pool_map(run, __name__, "worker_a", [(run.seed, per_var, w, nw, open_ids) for w in range(nw)], procs=nw)
-    total = run.n(2400, 200000)
+    total = run.n(4000, 200000)
     steps = run.n(30, 40)
     common.pool_map(run, __name__, "worker_machine",
                     [(common.worker_seed(run.seed, 1000 + w), total // nw, steps, open_ids) for w in range(nw)],
